@@ -61,6 +61,24 @@ def _selftest(ctx, cases):
     ctx.extra["writer_selftest_files"] = len(res)
 
 
+def _name_orders(results):
+    """A wrong order is named by the explanation (file-name / listing / archive order) that fits ALL failing
+    cases of a format, so one defect gets one signature however the permutations of a single case coincide."""
+    common = {}
+    for r in results:
+        sig = r.get("sig") or ""
+        if not r["ok"] and ":order:" in sig:
+            fmt, fits = sig.split(":")[1], set(sig.split(":order:")[1].split("+"))
+            common[fmt] = fits if fmt not in common else (common[fmt] & fits)
+    for r in results:
+        sig = r.get("sig") or ""
+        if not r["ok"] and ":order:" in sig:
+            fmt = sig.split(":")[1]
+            best = [x for x in ("file-name", "listing", "archive") if x in common.get(fmt, ())]
+            r["sig"] = "C18:%s:order:%s" % (fmt, best[0] if best else "other")
+    return results
+
+
 def _validate_segments(ctx, events, max_report=4):
     segs = []
     for e in events:
@@ -87,7 +105,10 @@ def _validate_segments(ctx, events, max_report=4):
             raise vlib.MachineryError("PartsOrderTrace rejects a Pkg event: the harness generated a package that is not well formed: %s"
                                       % vlib.json.dumps(ev)[:1500])
         head = segs[k][0]
-        sig = "C18:" + (head.get("hint") or "%s:trace-%s" % (head.get("fmt"), ev["event"].lower()))
+        hint = head.get("hint") or "%s:trace-%s" % (head.get("fmt"), ev["event"].lower())
+        if ":order:" in hint:   # larger packages: name the symptom only
+            hint = hint.split(":order:")[0] + ":order:trace"
+        sig = "C18:" + hint
         ctx.violation(sig, "PartsOrderTrace rejects the recorded execution at event %s: the real code does not present the declared "
                            "parts of this %s package in declared order" % (vlib.json.dumps(ev), head.get("fmt")),
                       {"request": head.get("request"), "seed": ctx.seed, "rejected_event": ev, "package": head,
@@ -129,7 +150,7 @@ def run(ctx):
     for c in (cases[ng // 3], cases[-1]):
         ctx.sample({"fmt": c["fmt"], "profile": c["prof"], "parts": [{"id": p["id"], "decl": p["decl"], "rel": p["rel"], "zip": p["zip"],
                     "n": p["name"]["n"]} for p in c["parts"]], "expected_pages": c["pages"]})
-    absorb(ctx, ctx.run_driver(["c18", "replay"], cases), label="pkg")
+    absorb(ctx, _name_orders(ctx.run_driver(["c18", "replay"], cases)), label="pkg")
     # ---- R3 -------------------------------------------------------------------
     nreq, per = (8, 8) if q else (40, 25)
     reqs = [{"n": per, "k": 10, "salt": i} for i in range(nreq)]
